@@ -576,7 +576,8 @@ fn arbitrary_tree_exclusivity<TC: ModelCfg>(args: &Args, rep: &Report) {
         nl.label_val[(b.len() / 8).min(31)] ^= 0x80 >> (b.len() % 8);
         nl
     }).collect();
-    let max_leaves = 3usize;
+    // thorough: also every 4-leaf tree, with the canonical interior labels of <= 2 bits only
+    let max_leaves = if args.quick() { 3usize } else { 4usize };
     struct Flat {
         label: NodeLabel,
         value: AzksValue,
@@ -604,7 +605,7 @@ fn arbitrary_tree_exclusivity<TC: ModelCfg>(args: &Args, rep: &Report) {
         out
     }
     for k in 1..=max_leaves {
-        for shape in atrees(k, pool.len() * 2) {
+        for shape in atrees(k, if k >= 4 { 6 } else { pool.len() * 2 }) {
             for perm in perms(leaf_labels.len(), k) {
                 let t = assign_leaves(&shape, &perm, &mut 0);
                 // the root itself: either this tree's top node IS the root's pair of children (if it is a Node: its label is
@@ -760,7 +761,7 @@ pub fn run(args: &Args) -> i32 {
         sweep::<ECfg>(args, &rep, e_hist.min(64), e_lookup.min(512), conf_e);
     }
     rep.finish(
-        "abstract model: constraint sets over atoms F(v)/S(v) (fresh/stale leaf of version v required present or absent), marker lists from the real get_marker_versions. states = (epoch, range) configurations examined, transitions = pairs examined. Sweep: every pair of history ranges with different latest versions for every epoch up to the bound, and every (complete history latest n, lookup version m != n) pair (dense up to the bound, sparse around 2^16 and 2^32): a pair with no atom required present by one and absent by the other is compatible. Conformance (traces_validated = real-tree experiments): for every history range and lookup version at every epoch up to the conformance bound a real tree holding exactly the required leaves is built by a dishonest publisher; the real verifier must accept it, reject it when any one required leaf is removed, and reject it when any one forbidden leaf is added; compatible pairs are replayed on the union tree and count only if both real verifiers accept. Arbitrary trees: every binary tree with <= 3 arbitrarily placed leaves and arbitrary interior labels, hashed like a server would; every membership proof (actual path) and non-membership proof (every interior anchor) through the real verifiers: never both for one label",
+        "abstract model: constraint sets over atoms F(v)/S(v) (fresh/stale leaf of version v required present or absent), marker lists from the real get_marker_versions. states = (epoch, range) configurations examined, transitions = pairs examined. Sweep: every pair of history ranges with different latest versions for every epoch up to the bound, and every (complete history latest n, lookup version m != n) pair (dense up to the bound, sparse around 2^16 and 2^32): a pair with no atom required present by one and absent by the other is compatible. Conformance (traces_validated = real-tree experiments): for every history range and lookup version at every epoch up to the conformance bound a real tree holding exactly the required leaves is built by a dishonest publisher; the real verifier must accept it, reject it when any one required leaf is removed, and reject it when any one forbidden leaf is added; compatible pairs are replayed on the union tree and count only if both real verifiers accept. Arbitrary trees: every binary tree with <= 3 (thorough: 4, interior labels of <= 2 bits) arbitrarily placed leaves and arbitrary interior labels (canonical and with garbage bits beyond their length), hashed like a server would; every membership proof (actual path) and non-membership proof (every interior anchor) through the real verifiers: never both for one label",
         &["dishonest server may place any fresh/stale leaves with any epochs (all leaves stamped with one epoch in the experiments)", "blake3 collision resistance, VRF uniqueness", "presence/absence exclusivity: C05 for canonical tries, the arbitrary-tree enumeration (<= 3 leaves) for non-canonical ones"],
     )
 }
